@@ -6,6 +6,7 @@
 import Djc.Proofs.Render
 import Djc.Proofs.Leaf
 import Djc.Proofs.Tree
+import Djc.Proofs.Stitch
 namespace Djc.Props.C14
 open Djc.Tpl Djc.Render Djc.Proofs.Render
 
@@ -191,5 +192,61 @@ theorem placeholders_are_distinct_queued_instances (env : Env) (hlib : Djc.Proof
 document order `page 1, list 2, leaf 4, leaf 5, leaf 3` -/
 example : Djc.Proofs.Tree.exSummary false = true ∧ Djc.Proofs.Tree.exSummary true = true :=
   ⟨by decide +kernel, by decide +kernel⟩
+
+/-! ### the rendered page of a tree of components: which elements carry which ids, at any depth -/
+
+open Djc.Proofs.Stitch in
+/-- **The page is the in-order expansion of its root instance, every instance's root elements tagged.**  For a component
+tag no component encloses, over any library of the tree fragment (`GoodLib`: nesting to any depth, loops, recursion): the
+tokens `component_post_render` returns are `Exp [placeholder of the root instance]` — each placeholder replaced, where it
+stands, by the instance's render marker and the tokens its template printed after `set_html_attributes` with the
+attributes the parent handed down plus its own id (`Djc.Proofs.Stitch.Exp`).  With `root_element_tagged` /
+`nested_untouched` (above) this reads: every top-level element of an instance's output carries its id, nothing below
+does; with `root_placeholder_tagged`: a component that is itself a root of its parent inherits the parent's ids. -/
+theorem page_is_expansion_of_root_instance (env : Env) (hlib : Djc.Proofs.Tree.GoodLib env) (fuel : Nat)
+    (name : Str) (kwargs : List (Str × Expr)) (only dyn : Bool) (ctx : Ctx) (w w' : World) (toks : List Tok)
+    (hd : isDynName name = false) (hc : Djc.Proofs.Plain.ctxFree ctx = true) (hw : Djc.Proofs.Tree.WInv w)
+    (hext : isExtracting ctx = false)
+    (hpar : Djc.Proofs.Tree.parentOf (if only || env.isolated then isolatedCopy ctx else ctx) = none)
+    (h : (renderCompTag env fuel name kwargs only dyn [] ctx).run.run w = (.ok toks, w')) :
+    Exp env [Tok.hole w.nextId []] toks :=
+  tree_root_output env hlib fuel name kwargs only dyn ctx w w' toks hd hc hw hext hpar h
+
+open Djc.Proofs.Stitch in
+/-- **A root element carries the inherited ids and the instance's own id** — at whatever depth the instance sits: in the
+expansion of instance `c`, placed with inherited attributes `a`, whose template printed an element first, that element
+comes out with `a ++ [data-djc-id-c]` appended to its attributes, right behind the render marker. -/
+theorem expanded_instance_root_element (env : Env) (nm : Str) (c : Nat) (a x : List Str) (t : Str) (rest out : List Tok)
+    (h : Exp env (.marker nm c :: addRootAttrs (a ++ [idAttr c]) (.opn t x :: rest)) out) :
+    ∃ out', out = .marker nm c :: .opn t (x ++ (a ++ [idAttr c])) :: out' := by
+  obtain ⟨e1, rfl, h1⟩ := Exp.tok_inv rfl h
+  have : addRootAttrs (a ++ [idAttr c]) (.opn t x :: rest) =
+      .opn t (x ++ (a ++ [idAttr c])) :: addRootAttrsAux (a ++ [idAttr c]) 1 rest := by
+    simp [addRootAttrs, addRootAttrsAux]
+  rw [this] at h1
+  obtain ⟨e2, rfl, _⟩ := Exp.tok_inv rfl h1
+  exact ⟨e2, rfl⟩
+
+open Djc.Proofs.Stitch in
+/-- **When a component's root is itself a component, the shared root elements carry both ids** (and so on down a chain
+of any length): if the first thing instance `c`'s template printed is the placeholder of a child `k`, the child's
+content is expanded with the attributes `a ++ [data-djc-id-c]` handed down — so by `expanded_instance_root_element` its
+root elements carry `a`, `c`'s id and `k`'s id; applied again, a grandchild at the root of `k` carries all three. -/
+theorem component_as_root_inherits_ids (env : Env) (nm : Str) (c k : Nat) (a : List Str) (rest out : List Tok)
+    (h : Exp env (.marker nm c :: addRootAttrs (a ++ [idAttr c]) (.hole k [] :: rest)) out) :
+    ∃ (r : Renderer) (d : CompDef) (html ek out' : List Tok), out = .marker nm c :: (ek ++ out') ∧ r.id = k ∧ findDef env r.name = some d ∧
+      Exp env (.marker r.name k :: addRootAttrs ((a ++ [idAttr c]) ++ [idAttr k]) html) ek := by
+  obtain ⟨e1, rfl, h1⟩ := Exp.tok_inv rfl h
+  have : addRootAttrs (a ++ [idAttr c]) (.hole k [] :: rest) =
+      .hole k (a ++ [idAttr c]) :: addRootAttrsAux (a ++ [idAttr c]) 0 rest := by
+    simp [addRootAttrs, addRootAttrsAux]
+  rw [this] at h1
+  obtain ⟨r, d, html, ec, e, rfl, hid, hf, _, hec, _⟩ := Exp.hole_inv h1
+  exact ⟨r, d, html, ec, e, rfl, hid, hf, hec⟩
+
+/-- instance (kernel-evaluated): `page` > `list` (a root of `page`) > two leaves in a loop inside `<ul>`, and a leaf beside
+the list (a root of `page`) — the `<ul>` carries ids 1 and 2, the looped `<li>` their own id only, the last `<li>` ids 1
+and 3; the whole token list is `Djc.Proofs.Stitch.exExpected` -/
+example : Djc.Proofs.Stitch.exOutputOk = true := by decide +kernel
 
 end Djc.Props.C14
